@@ -9,7 +9,8 @@
 //!  0 seq rpt id   NEW_CONNECTION_ID from the peer (encoded, parsed back by the real frame parser,
 //!                 then recv_frame)        -> 0 accepted | 1 discarded | 2 CONNECTION_ID_LIMIT_ERROR
 //!                                            | 3 frame parser refused | 4 other error ; RETIRE seqs…
-//!  1 c seq        RETIRE_CONNECTION_ID from the peer of connection c -> 0 | 2 | 4 ; (seq rpt)…
+//!  1 c seq        RETIRE_CONNECTION_ID from the peer of connection c -> 0 | 2 PROTOCOL_VIOLATION (unissued number,
+//!                 RFC 9000 19.16) | 4 other error ; (seq rpt)…
 //!  2 c n          set_limit(n) on connection c                        -> 0 | 5 | -98 ; (seq rpt)…
 //!  3              apply_dcid (new path)                               -> path index ; RETIRE seqs…
 //!  4 p            borrow_cid on path p      -> 0 retired | 1 pending | 2 id
@@ -237,6 +238,15 @@ fn kind_code(k: ErrorKind) -> u8 {
     }
 }
 
+/// RETIRE_CONNECTION_ID of a never-issued number: class 2 is the error RFC 9000 19.16 prescribes
+/// (PROTOCOL_VIOLATION, the code since the fix of F55); anything else is class 4
+fn retire_kind_code(k: ErrorKind) -> u8 {
+    match k {
+        ErrorKind::ProtocolViolation => 2,
+        _ => 4,
+    }
+}
+
 fn step(st: &mut St, op: &Op, _i: usize) -> Obs {
     let mut o = Obs::new();
     let refused = |o: &mut Obs| {
@@ -282,7 +292,7 @@ fn step(st: &mut St, op: &Op, _i: usize) -> Obs {
                 let r = st.conns[c].local.as_ref().unwrap().recv_frame(RetireConnectionIdFrame::new(seq));
                 match r {
                     Ok(()) => o.push(0u8),
-                    Err(e) => o.push(kind_code(e.kind())),
+                    Err(e) => o.push(retire_kind_code(e.kind())),
                 };
                 st.push_new(c, &mut o);
             }
